@@ -25,6 +25,52 @@ OPS_ENTRIES = ('liberasurecode_encode', 'liberasurecode_decode', 'liberasurecode
                'liberasurecode_get_aligned_data_size', 'liberasurecode_get_minimum_encode_size', 'liberasurecode_get_fragment_size',
                'liberasurecode_encode_cleanup', 'liberasurecode_decode_cleanup')
 
+def rule_zero_fill(ctx, P):
+    # ---------------- R15c
+    r = ctx.rule('R15c', 'fragment buffers are zero-filled over their whole allocation size',
+                 'padding bytes feed parity and checksums: uninitialised padding makes output depend on heap history')
+    g = P.fn('get_aligned_buffer16')
+    Cg = Canon(P, g)
+    pm = [i for i in g.insts() if i.op == 'call' and i.callee == '@posix_memalign']
+    ms = [i for i in g.insts() if i.op == 'call' and i.callee.startswith('@llvm.memset')]
+    if not pm:
+        raise AnalysisBroken('anchor vanished: get_aligned_buffer16 does not allocate')
+    if not ms:
+        r.fail('get_aligned_buffer16 zero fill', func=g.name, sig='no memset', loc=pm[0].loc, msg='the aligned allocator does not clear the buffer')
+    else:
+        m0 = ms[0]
+        same = Cg.val(strip_int_casts(g, m0.ops[2])) == Cg.val(strip_int_casts(g, pm[0].ops[2]))
+        zero = m0.ops[1] == '0'
+        # every path from a successful allocation to return passes the memset
+        esc = None
+        for b in g.order:
+            t = b.insts[-1]
+            if t.op == 'br' and len(t.targets) == 2 and t.ops:
+                c = g.defs.get(t.ops[0])
+                if c is not None and c.op == 'icmp' and pm[0].res in c.ops and '0' in c.ops:
+                    okdst = g.blocks[t.targets[1] if c.pred == 'ne' else t.targets[0]]
+                    esc = reaches_without(g, okdst, lambda i: i.op == 'ret', lambda i: i is m0)
+        if same and zero and esc is None:
+            r.ok('get_aligned_buffer16: memset(buf, 0, size) with the allocation size on every successful path', func=g.name, loc=m0.loc)
+        else:
+            r.fail('get_aligned_buffer16 zero fill', func=g.name, sig=f'memset value {m0.ops[1]} size {Cg.val(m0.ops[2])[:30]} skipped={esc is not None}', loc=m0.loc,
+                   msg='the buffer is not cleared over its full size on every path')
+    a = P.fn('alloc_fragment_buffer')
+    if any(i.op == 'call' and i.callee == '@get_aligned_buffer16' for i in a.insts()) and not any(i.op == 'call' and i.callee in ('@malloc', '@posix_memalign') for i in a.insts()):
+        r.ok('alloc_fragment_buffer allocates only through get_aligned_buffer16', func=a.name, loc=a.mod.src)
+    else:
+        r.fail('alloc_fragment_buffer allocator', func=a.name, sig='other allocator', loc=a.mod.src, msg='fragment buffers do not (only) come from the zero-filling allocator')
+    # every producer of fragment buffers on the encode/decode paths uses alloc_fragment_buffer
+    for fname in ('prepare_fragments_for_encode', 'prepare_fragments_for_decode'):
+        h = P.fn(fname)
+        direct = [i for i in h.insts() if i.op == 'call' and i.callee in ('@malloc', '@calloc', '@posix_memalign')]
+        if direct:
+            r.fail(f'{fname}: fragment buffers', func=h.name, sig=f'direct {direct[0].callee}', loc=direct[0].loc, msg=f'{fname} allocates with {direct[0].callee} instead of alloc_fragment_buffer')
+        else:
+            r.ok(f'{fname}: buffers come from alloc_fragment_buffer', func=h.name, loc=h.mod.src)
+    r.require_min(4)
+
+
 def run(ctx):
     P = ctx.program()
     cg = callgraph.get(P)
@@ -134,49 +180,7 @@ def run(ctx):
             r.undecided(f'{fname}: region writes', msg='no write through data[]/parity[] elements found')
     r.require_min(3)
 
-    # ---------------- R15c
-    r = ctx.rule('R15c', 'fragment buffers are zero-filled over their whole allocation size',
-                 'padding bytes feed parity and checksums: uninitialised padding makes output depend on heap history')
-    g = P.fn('get_aligned_buffer16')
-    Cg = Canon(P, g)
-    pm = [i for i in g.insts() if i.op == 'call' and i.callee == '@posix_memalign']
-    ms = [i for i in g.insts() if i.op == 'call' and i.callee.startswith('@llvm.memset')]
-    if not pm:
-        raise AnalysisBroken('anchor vanished: get_aligned_buffer16 does not allocate')
-    if not ms:
-        r.fail('get_aligned_buffer16 zero fill', func=g.name, sig='no memset', loc=pm[0].loc, msg='the aligned allocator does not clear the buffer')
-    else:
-        m0 = ms[0]
-        same = Cg.val(strip_int_casts(g, m0.ops[2])) == Cg.val(strip_int_casts(g, pm[0].ops[2]))
-        zero = m0.ops[1] == '0'
-        # every path from a successful allocation to return passes the memset
-        esc = None
-        for b in g.order:
-            t = b.insts[-1]
-            if t.op == 'br' and len(t.targets) == 2 and t.ops:
-                c = g.defs.get(t.ops[0])
-                if c is not None and c.op == 'icmp' and pm[0].res in c.ops and '0' in c.ops:
-                    okdst = g.blocks[t.targets[1] if c.pred == 'ne' else t.targets[0]]
-                    esc = reaches_without(g, okdst, lambda i: i.op == 'ret', lambda i: i is m0)
-        if same and zero and esc is None:
-            r.ok('get_aligned_buffer16: memset(buf, 0, size) with the allocation size on every successful path', func=g.name, loc=m0.loc)
-        else:
-            r.fail('get_aligned_buffer16 zero fill', func=g.name, sig=f'memset value {m0.ops[1]} size {Cg.val(m0.ops[2])[:30]} skipped={esc is not None}', loc=m0.loc,
-                   msg='the buffer is not cleared over its full size on every path')
-    a = P.fn('alloc_fragment_buffer')
-    if any(i.op == 'call' and i.callee == '@get_aligned_buffer16' for i in a.insts()) and not any(i.op == 'call' and i.callee in ('@malloc', '@posix_memalign') for i in a.insts()):
-        r.ok('alloc_fragment_buffer allocates only through get_aligned_buffer16', func=a.name, loc=a.mod.src)
-    else:
-        r.fail('alloc_fragment_buffer allocator', func=a.name, sig='other allocator', loc=a.mod.src, msg='fragment buffers do not (only) come from the zero-filling allocator')
-    # every producer of fragment buffers on the encode/decode paths uses alloc_fragment_buffer
-    for fname in ('prepare_fragments_for_encode', 'prepare_fragments_for_decode'):
-        h = P.fn(fname)
-        direct = [i for i in h.insts() if i.op == 'call' and i.callee in ('@malloc', '@calloc', '@posix_memalign')]
-        if direct:
-            r.fail(f'{fname}: fragment buffers', func=h.name, sig=f'direct {direct[0].callee}', loc=direct[0].loc, msg=f'{fname} allocates with {direct[0].callee} instead of alloc_fragment_buffer')
-        else:
-            r.ok(f'{fname}: buffers come from alloc_fragment_buffer', func=h.name, loc=h.mod.src)
-    r.require_min(4)
+    rule_zero_fill(ctx, P)
 
     # ---------------- R15d
     r = ctx.rule('R15d', 'no global / static is written from the operation cones; the only getenv is LIBERASURECODE_WRITE_LEGACY_CRC',
@@ -218,3 +222,8 @@ def run(ctx):
     if not any(i['status'] == 'fail' for i in r.instances):
         r.ok(f'{len(cone)} functions in the operation cones: {nacc} global accesses, none is a store', func='<cone>', loc='')
     r.require_min(3)
+    from . import c01
+    r = ctx.rule('R01a', 'encode reads orig_data only through the split loop: bytes copied = advance = decrement = min(remaining, payload size)',
+                 'a copy length that ignores the remaining length reads past the caller\'s buffer and makes output depend on adjacent memory')
+    c01.cursor_rule(P, r, 'prepare_fragments_for_encode', 'src')
+    r.require_min(1)
